@@ -27,6 +27,9 @@ def script_single(variant):
         i = ops.index("cpu 0 0")
         ops[i + 1:i + 1] = ["cpu %d %d" % (k, k) for k in range(1, 70)]
         ops += ["attr_str test.long %s" % ("x" * 200)]
+    if variant == "nearcap":
+        # a jumbo event within 24 bytes of the buffer capacity arriving at a non-empty buffer
+        ops += ["ev OB. now 0102", "jumbo OB. now %d 7" % (2097152 - 16 - 10), "ev OB. now -", "flush"]
     if variant == "autoflush":
         ops += ["jumbo OB. now 1500000 3", "jumbo OB. now 900000 4", "ev OB. now -", "flush"]
     else:
@@ -157,6 +160,35 @@ def examine(wd, logdir):
     r = emu.emu(plain, final, timeout=60) if os.path.isdir(final) else None
     accepted = bool(r and emu.accepted(r))
     sig.append(("emu", "ok" if accepted else "fail"))
+    if accepted and viol is None:
+        # success must cover every visible stream: a thread directory that holds a
+        # stream.json (whatever is in it) and events is in the emulation, i.e. has
+        # its row in thread.row - otherwise its flushed events are missing from what
+        # the emulator reports success on
+        try:
+            rows = [l.strip() for l in open(os.path.join(final, "thread.row")) if l.strip().startswith("TH")]
+        except OSError:
+            rows = None
+        if rows is not None:
+            seen_tids = set()
+            for l in rows:
+                try:
+                    seen_tids.add(int(l.split(".")[-1]))
+                except ValueError:
+                    pass
+            for sd in obs.find_streams(final):
+                if not os.path.exists(os.path.join(sd, "stream.json")):
+                    continue
+                try:
+                    tid_ = int(os.path.basename(sd).split(".")[1])
+                except ValueError:
+                    continue
+                evs_ = decoded_prefix(os.path.join(sd, "stream.obs"))
+                if evs_ and tid_ not in seen_tids:
+                    viol = ("emulator-accepts-ignoring-visible-stream",
+                            "ovniemu reported success but the stream of thread %d (metadata file present, %d events on "
+                            "disk) is not part of the emulation" % (tid_, len(evs_)))
+                    break
     if accepted and visible_lacking and viol is None:
         viol = ("emulator-accepts-trace-lacking-flushed-events",
                 "ovniemu reported success although visible streams %s lack flushed events" % visible_lacking)
